@@ -86,7 +86,10 @@ def main(path):
     if out["status"] not in ("ok",):
         print("REPLAY: %s could not be verified: %s %s" % (fn, out["status"], out.get("message", "")[:400]))
         return 2
-    same_name = [o for o in out["obligations"] if o["name"] == rec["obligation"]]
+    import re as _re
+    base = lambda n_: _re.sub(r"#\d+$", "", n_)       # a failing clause is re-decided conjunct by conjunct (#k suffix)
+    same_name = [o for o in out["obligations"] if o["name"] == rec["obligation"]] or \
+        [o for o in out["obligations"] if base(o["name"]) == base(rec["obligation"])]
     same_path = [o for o in same_name if o["sig"] == rec.get("path_signature")]
     cands = same_path or same_name
     if not cands:
